@@ -45,6 +45,13 @@ def run(rep, tier):
     boundary_tables(rep, F)
     exactness(rep, F)
     dimension_tables(rep, F)
+    # the intersector the graphs are noded with classifies every pair of segments exactly (table shared with C11, on the relate entry point itself)
+    try:
+        from . import c11
+        ci = F.impl_method("geo::algorithm::relate::geomgraph::line_intersector::LineIntersector", r"RobustLineIntersector$", None, "compute_intersection", crates=("geo",))
+        c11.classification(rep, F, "quick", rule="R1.16", fn=ci, pq=(2, 3), what="RobustLineIntersector::compute_intersection")
+    except KeyError as e:
+        rep.bad("R1.16", "anchor", str(e))
     from . import c05
     c05.winding_table(rep, F, rule="R1.7")
     # PreparedGeometry is a Relate operand too: the graph it hands to the pipeline must be a fresh, faithful copy (rules shared with C17)
